@@ -221,6 +221,8 @@ impl Poll {
     }
 
     pub(crate) fn poll(&self, mut timeout: Option<Duration>) -> crate::Result<Vec<PollEvent>> {
+        #[cfg(calloop_verif)]
+        use crate::verif::Clock as Instant;
         // Adjust the timeout for the timers.
         let next_timeout = self
             .timers
@@ -234,7 +236,10 @@ impl Poll {
 
         let mut events = self.events.borrow_mut();
         events.clear();
+        #[cfg(not(calloop_verif))]
         self.poller.wait(&mut events, timeout)?;
+        #[cfg(calloop_verif)]
+        crate::verif::wait(&self.poller, &mut events, timeout)?;
 
         // Convert `polling` events to `calloop` events.
         let level_triggered = self.level_triggered.as_ref().map(RefCell::borrow);
@@ -266,6 +271,8 @@ impl Poll {
             .collect::<std::io::Result<Vec<_>>>()?;
 
         drop(events);
+        #[cfg(calloop_verif)]
+        let verif_n_fd = poll_events.len();
 
         let now = Instant::now();
         let mut timers = self.timers.borrow_mut();
@@ -278,6 +285,11 @@ impl Poll {
                 },
                 token,
             });
+        }
+        #[cfg(calloop_verif)]
+        {
+            drop(timers);
+            crate::verif::batch(&mut poll_events, verif_n_fd);
         }
 
         Ok(poll_events)
@@ -320,6 +332,8 @@ impl Poll {
         };
 
         let ev = cvt_interest(interest, token);
+        #[cfg(calloop_verif)]
+        crate::verif::fault(crate::verif::FaultSite::Register, raw as i32)?;
 
         // SAFETY: See invariant on function.
         unsafe {
@@ -364,6 +378,8 @@ impl Poll {
         };
 
         let ev = cvt_interest(interest, token);
+        #[cfg(calloop_verif)]
+        crate::verif::fault(crate::verif::FaultSite::Reregister, raw as i32)?;
         self.poller
             .modify_with_mode(borrowed, ev, cvt_mode(mode, self.poller.supports_level()))?;
 
@@ -397,6 +413,8 @@ impl Poll {
                 (fd.as_socket(), fd.as_socket().as_raw_socket())
             }
         };
+        #[cfg(calloop_verif)]
+        crate::verif::fault(crate::verif::FaultSite::Unregister, raw as i32)?;
         self.poller.delete(borrowed)?;
 
         if let Some(level_triggered) = self.level_triggered.as_ref() {
@@ -424,7 +442,11 @@ pub(crate) struct Notifier(Arc<Poller>);
 
 impl Notifier {
     pub(crate) fn notify(&self) -> crate::Result<()> {
+        #[cfg(calloop_verif)]
+        crate::verif::point(crate::verif::Site::NotifyBefore);
         self.0.notify()?;
+        #[cfg(calloop_verif)]
+        crate::verif::point(crate::verif::Site::NotifyAfter);
 
         Ok(())
     }
